@@ -226,6 +226,25 @@ def check_hex(h, raw, upper):
     return len(raw) > 0, ["upper" if upper else "lower"]
 
 
+def check_hex_large(h, size, delim, upper, pattern, seed):
+    """12000 .. 65535 bytes (the API maximum) with delimiters of 0..3 characters: the text passes 65535 characters."""
+    raw = (b"\xff" * size) if pattern == 0 else hashlib.shake_128(seed.to_bytes(4, "big")).digest(size)
+    hl = binascii.hexlify(raw)
+    if upper:
+        hl = hl.upper()
+    want = delim.join(hl[i:i + 2] for i in range(0, len(hl), 2))
+    got = unhx(ok(h.call("hexe", "1" if upper else "0", hx(raw), hx(delim)), "hexe")[0])
+    assert len(got) == len(want), "RawDataToHexStr(%d bytes, %d-char delimiter) produced %d chars, expected %d" % (size, len(delim), len(got), len(want))
+    if got != want:
+        at = next(i for i in range(len(want)) if got[i] != want[i])
+        raise AssertionError("RawDataToHexStr(%d bytes, %d-char delimiter): the %d-char text differs from the Python encoding at offset %d: %r instead of %r"
+                             % (size, len(delim), len(got), at, got[at:at + 12], want[at:at + 12]))
+    reply = h.call("hexd", hx(got), hx(delim))
+    assert reply[0] == "ok", "HexStrToRawData(RawDataToHexStr(x)) failed for %d bytes, %d-char delimiter: %s" % (size, len(delim), " ".join(reply)[:200])
+    assert unhx(reply[1]) == raw and int(reply[2]) == size, "HexStrToRawData(RawDataToHexStr(x)) != x for %d bytes, %d-char delimiter" % (size, len(delim))
+    return len(want) > 65535, ["delim%d" % len(delim), "text_over_65535" if len(want) > 65535 else "text_up_to_65535"]
+
+
 def check_hex_decode_text(h, text):
     try:
         want = binascii.unhexlify(text)
@@ -354,6 +373,10 @@ TESTS = {
     "b64_decode_text": (check_b64_decode_text, dict(text=_b64_text)),
     "hex_roundtrip": (check_hex, dict(raw=st.binary(max_size=300), upper=st.booleans())),
     "hex_decode_text": (check_hex_decode_text, dict(text=_hex_text)),
+    # few, large examples (4 % of --examples, at least 6): sizes where the text passes 65535 characters for each delimiter length
+    "hex_roundtrip_large": (check_hex_large, dict(
+        size=st.one_of(st.builds(lambda b, d: min(65535, b + d), st.sampled_from([13108, 16385, 21846, 32768, 43691, 65535]), st.integers(-3, 3)), st.integers(12000, 65535)),
+        delim=st.sampled_from([b"", b"", b" ", b":", b", ", b": ", b" | "]), upper=st.booleans(), pattern=st.integers(0, 1), seed=st.integers(0, 2**32 - 1)), 0.04),
     "url_roundtrip": (check_url, dict(raw=st.binary(max_size=200), path_mode=st.booleans(), safe=st.sampled_from(["", "/", "/:@", "~-._", "!*'()"]))),
     "url_decode_text": (check_url_decode_text, dict(text=_url_text)),
     "crc_checksum": (check_crc, dict(data=st.binary(max_size=2000))),
